@@ -768,7 +768,7 @@ theorem effect_isSome (r : Bool) (c : Conn) (t : Nat) (act : Act)
     | writeFlush => simp only [effect, effApi]; split <;> rfl
     | buffer => simp only [effect, effApi]; split <;> rfl
     | flush => rfl
-    | failNet => rfl
+    | failNet cls => rfl
     | setHandler h => rfl
     | guardedClose => simp only [effect, effApi]; split <;> rfl
   | readLoop s =>
@@ -988,5 +988,98 @@ theorem terminal_bodyTotal {c : Conn} (h : terminal c = true) : bodyTotalL c.thr
       simp [bodyCnt]
       exact ih (fun th hth => hl th (List.mem_cons_of_mem _ hth))
   exact this _ h
+
+/-! ### a write error always leads to a close -/
+
+/-- the ghost flag `werr` is raised only by the step that also pushes the `Close()` of closeOnWriteErr -/
+theorem effect_werr {r c t act c1 pushed} (h : effect r c t act = some (c1, pushed)) :
+    c1.werr = c.werr ∨ ∃ a ∈ pushed, isTrigger a = true := by
+  unfold effect at h
+  split at h
+  · unfold effApi at h
+    split at h
+    · split at h <;> simp at h <;> obtain ⟨rfl, _⟩ := h <;> exact Or.inl rfl
+    all_goals (try split at h)
+    all_goals (simp at h; obtain ⟨rfl, _⟩ := h; exact Or.inl rfl)
+  · split at h <;> simp at h <;> obtain ⟨rfl, rfl⟩ := h
+    · exact Or.inr ⟨_, List.mem_cons_self .., rfl⟩
+    · exact Or.inl rfl
+  · simp at h; obtain ⟨rfl, _⟩ := h; exact Or.inl rfl
+  · simp at h; obtain ⟨rfl, _⟩ := h; exact Or.inl rfl
+  · simp at h; obtain ⟨rfl, _⟩ := h; exact Or.inl rfl
+  · split at h <;> simp at h <;> obtain ⟨rfl, _⟩ := h <;> exact Or.inl rfl
+  · simp at h; obtain ⟨rfl, _⟩ := h; exact Or.inl rfl
+  · simp at h
+  · split at h
+    · simp at h; obtain ⟨rfl, _⟩ := h; exact Or.inl rfl
+    · split at h
+      · simp at h; obtain ⟨rfl, _⟩ := h; exact Or.inl rfl
+      · simp at h; obtain ⟨rfl, _⟩ := h; exact Or.inl rfl
+      · split at h <;> simp at h <;> obtain ⟨rfl, _⟩ := h <;> exact Or.inl rfl
+  · split at h <;> simp at h <;> obtain ⟨rfl, _⟩ := h <;> exact Or.inl rfl
+
+/-- a pending trigger survives an ordinary step taken while the `Once` is fresh -/
+theorem hasTrigger_step_plain {r c t act rest c1 pushed} (hth : c.threads[t]? = some (act :: rest))
+    (he : effect r c t act = some (c1, pushed)) (hp : plain c act = true) (hf : c.once = .fresh)
+    (hc : c.cancelled = false) (ht : hasTrigger c) :
+    hasTrigger { c1 with threads := c.threads.set t (pushed ++ rest) } := by
+  obtain ⟨t0, st0, a0, h0, ha0, htr⟩ := ht
+  by_cases e : t0 = t
+  · subst e
+    rw [hth] at h0
+    have hst : st0 = act :: rest := (Option.some.inj h0).symm
+    subst hst
+    rcases List.mem_cons.1 ha0 with rfl | hin
+    · obtain ⟨a1, ha1, htr1⟩ := trigger_pushes_trigger htr hp hf hc he
+      exact ⟨t0, pushed ++ rest, a1, getElem?_set_self' _ hth _, List.mem_append_left _ ha1, htr1⟩
+    · exact ⟨t0, pushed ++ rest, a0, getElem?_set_self' _ hth _, List.mem_append_right _ hin, htr⟩
+  · refine ⟨t0, st0, a0, ?_, ha0, htr⟩
+    show (c.threads.set t (pushed ++ rest))[t0]? = some st0
+    rw [getElem?_set_ne' _ (Ne.symm e)]; exact h0
+
+/-- while the `Once` is fresh: the context is not cancelled, and a write error that has happened has left
+    its `Close()` pending -/
+def WerrInv (c : Conn) : Prop := c.once = .fresh → c.cancelled = false ∧ (c.werr = true → hasTrigger c)
+
+theorem step_werrInv {r c t c'} (h : step r c t = some c') (inv : Inv c) (wi : WerrInv c) : WerrInv c' := by
+  obtain ⟨act, rest, c1, pushed, _, hth, he, rfl⟩ := step_inv h
+  intro hf'
+  have hf1 : c1.once = .fresh := hf'
+  by_cases hp : plain c act = true
+  · have pf := effect_plain hp he
+    have hf : c.once = .fresh := by rw [← pf.once]; exact hf1
+    obtain ⟨hc, hw⟩ := wi hf
+    refine ⟨by show c1.cancelled = false; rw [pf.cancSame]; exact hc, ?_⟩
+    intro hw1
+    have hw1' : c1.werr = true := hw1
+    rcases effect_werr he with e | ⟨a, ha, htr⟩
+    · exact hasTrigger_step_plain hth he hp hf hc (hw (by rw [← e]; exact hw1'))
+    · exact ⟨t, pushed ++ rest, a, getElem?_set_self' _ hth _, List.mem_append_left _ ha, htr⟩
+  · cases act with
+    | api a rep =>
+      cases a with
+      | close k =>
+        have hf : c.once = .fresh := by simp [plain] at hp; exact hp
+        simp [effect, effApi, hf] at he
+        obtain ⟨rfl, _⟩ := he
+        simp at hf1
+      | _ => simp [plain] at hp
+    | body pc rep =>
+      have hrun := (inv.items t _ hth _ (List.mem_cons_self ..)).1
+      have hpc := (inv.items t _ hth _ (List.mem_cons_self ..)).2.1
+      have hlt : pc = 0 ∨ pc = 1 ∨ pc = 2 ∨ pc = 3 ∨ pc = 4 := by omega
+      rcases hlt with rfl | rfl | rfl | rfl | rfl
+      · simp [effect] at he; obtain ⟨rfl, _⟩ := he; simp [hrun] at hf1
+      · simp [effect] at he; obtain ⟨rfl, _⟩ := he; simp [hrun] at hf1
+      · simp [effect] at he; obtain ⟨rfl, _⟩ := he; simp [hrun] at hf1
+      · simp only [effect] at he
+        split at he <;> simp at he <;> obtain ⟨rfl, _⟩ := he <;> simp [hrun] at hf1
+      · simp [effect] at he; obtain ⟨rfl, _⟩ := he; simp at hf1
+    | _ => simp [plain] at hp
+
+theorem exec_inv_werr {r sched c c'} (h : exec r c sched = some c') (inv : Inv c) (wi : WerrInv c) :
+    Inv c' ∧ WerrInv c' :=
+  exec_induct r (fun x => Inv x ∧ WerrInv x)
+    (fun _ _ _ hp hs => ⟨step_inv_Inv hs hp.1, step_werrInv hs hp.1 hp.2⟩) sched c c' ⟨inv, wi⟩ h
 
 end Gate.C44
